@@ -53,6 +53,24 @@ func (q *Quant) doInst() bool {
 	return q.pol >= 0
 }
 
+// notApplicable is raised by x.(T) in a contract clause when the dynamic type is known to differ: the clause says
+// nothing about this call (requires/ensures are skipped, modifies falls back to "everything reachable").
+type notApplicable struct{ why string }
+
+func applicable(f func()) (ok bool) {
+	defer func() {
+		if r := recover(); r != nil {
+			if _, na := r.(notApplicable); na {
+				ok = false
+				return
+			}
+			panic(r)
+		}
+	}()
+	f()
+	return true
+}
+
 type oldCtx struct {
 	s   *State
 	env map[types.Object]Value
@@ -422,6 +440,9 @@ func (ev *astEnv) eval(x ast.Expr) Value {
 		if iv, ok := v.(*IfaceV); ok && iv.Val != nil && iv.Typ != nil && types.Identical(iv.Typ, ev.typeOf(n)) {
 			return iv.Val
 		}
+		if iv, ok := v.(*IfaceV); ok && iv.Typ != nil {
+			panic(notApplicable{"dynamic type is " + iv.Typ.String()})
+		}
 		panic(unsupported("type assertion in contract on a value of unknown dynamic type"))
 	case *ast.CompositeLit:
 		t := ev.typeOf(n)
@@ -666,6 +687,18 @@ func (ev *astEnv) call(n *ast.CallExpr) Value {
 			panic(unsupported("result index out of range in contract"))
 		}
 		return ev.results[k]
+	case "verif_arg":
+		k := 0
+		if len(n.Args) > 0 {
+			if tv, ok := ev.info.Types[n.Args[0]]; ok && tv.Value != nil {
+				i, _ := constant.Int64Val(tv.Value)
+				k = int(i)
+			}
+		}
+		if k >= len(e.callArgs) {
+			panic(unsupported("argN outside a call-site assertion or out of range"))
+		}
+		return e.callArgs[k]
 	case "verif_rangeidx":
 		// number of completed iterations of the range loop whose invariant is being evaluated
 		if ev.loop != nil && ev.loop.rangeIdx != nil && ev.f != nil {
